@@ -53,7 +53,7 @@ UrlSandbox = CoreCodemod(
              pattern-either:
                - patterns:
                  - pattern: requests.get(...)
-                 - pattern-not: requests.get("...")
+                 - pattern-not: requests.get("...", ...)
                  - pattern-inside: |
                      import requests
                      ...
